@@ -250,6 +250,14 @@ def el_comment_text(g):
             f'<g><!-- lead --><title>t1</title><rect width="{g.s()}" height="{g.s()}"/><!-- trail --></g><text x="{g.p()}" y="{g.p()}"><tspan>a</tspan> b <tspan>c</tspan></text>')
 
 
+def el_clip_values(g):
+    # the clip-path property takes url(#id), none and basic shapes; the root <svg> keeps its class; <use> of a target sized
+    # by a percentage or a length with unit
+    return (f'<rect x="{g.p()}" y="{g.p()}" width="{g.s()}" height="{g.s()}" clip-path="none"/><circle cx="{g.p()}" cy="{g.p()}" r="{g.s()}" clip-path="circle(40%)"/>'
+            f'<g clip-path="none"><rect width="{g.s()}" height="{g.s()}"/></g><defs><rect id="pct" width="50%" height="{g.s()}"/><rect id="unit" width="{g.s()}" height="2cm"/></defs>'
+            f'<use href="#pct" x="{g.p()}" y="{g.p()}"/><use href="#unit" x="{g.p()}"/>')
+
+
 def el_transform_ws(g):
     # white space (line breaks included) and commas may surround and separate the items of a transform list
     return (f'<rect width="{g.s()}" height="{g.s()}" transform="translate({g.p()},{g.p()}) "/><rect width="{g.s()}" height="{g.s()}" transform=" rotate({g.p()})"/>'
@@ -265,7 +273,7 @@ def el_transforms(g):
             f'<text x="{g.p()}" y="{g.p()}" transform="rotate({g.p()})">t</text><use href="#trf" x="{g.p()}" y="{g.p()}" transform="skewX({g.p()})"/><defs><rect id="trf" width="1" height="1"/></defs>')
 
 
-LEAF = {"transform-ws": el_transform_ws, "use-centred": el_use_centred, "line-partial": el_line_partial, "text-forms": el_text_forms, "points-ws": el_points_ws, "fine-decimals": el_fine_decimals, "comment-text": el_comment_text, "mixed-units": el_mixed_units, "nonshape-attrs": el_nonshape_attrs, "text-dx-carriers": el_text_dx_carriers, "transforms": el_transforms, "partial": el_partial, "openclose": el_openclose, "use-partial": el_use_partial, "rect": el_rect, "rect0": el_rect0, "circle": el_circle, "ellipse": el_ellipse, "line": el_line, "polyline": el_polyline, "polygon": el_polygon, "path-abs": el_path_abs,
+LEAF = {"clip-values": el_clip_values, "transform-ws": el_transform_ws, "use-centred": el_use_centred, "line-partial": el_line_partial, "text-forms": el_text_forms, "points-ws": el_points_ws, "fine-decimals": el_fine_decimals, "comment-text": el_comment_text, "mixed-units": el_mixed_units, "nonshape-attrs": el_nonshape_attrs, "text-dx-carriers": el_text_dx_carriers, "transforms": el_transforms, "partial": el_partial, "openclose": el_openclose, "use-partial": el_use_partial, "rect": el_rect, "rect0": el_rect0, "circle": el_circle, "ellipse": el_ellipse, "line": el_line, "polyline": el_polyline, "polygon": el_polygon, "path-abs": el_path_abs,
         "path-rel": el_path_rel, "path-arc": el_path_arc, "text": el_text, "text-tspan": el_text_tspan, "use": el_use, "image": el_image, "foreignObject": el_foreign,
         "linearGradient": el_lingrad, "radialGradient": el_radgrad, "marker": el_marker, "clipPath": el_clip, "mask": el_mask, "pattern": el_pattern, "filter": el_filter, "symbol": el_symbol,
         "title": el_title, "units": el_units, "style": el_style}
@@ -351,6 +359,7 @@ def templates(tier, seed):
         tds.append(dict(fam="sys", items=[], gseed=gi + 10000 * seed, root=("fragment" if gi % 7 == 3 else "svg")))
     for k in LEAF:
         tds.append(dict(fam="leaf", items=[k], root="svg"))
+        tds.append(dict(fam="leaf", items=[k], root="svg-class"))
         tds.append(dict(fam="leaf", items=[k], root="fragment"))
         for w in WRAP:
             tds.append(dict(fam="wrapped", items=[k], wrap=[w], root="svg"))
@@ -359,7 +368,7 @@ def templates(tier, seed):
     for i in range(200 if tier == "quick" else 1200):
         items = rnd.sample(names, rnd.randint(2, 4))
         wraps = [rnd.choice(list(WRAP)) for _ in range(rnd.randint(0, 2))]
-        tds.append(dict(fam="mixed", items=items, wrap=wraps, root=rnd.choice(["svg", "svg", "fragment", "svg-attrs"])))
+        tds.append(dict(fam="mixed", items=items, wrap=wraps, root=rnd.choice(["svg", "svg", "fragment", "svg-attrs", "svg-class"])))
     return tds
 
 
@@ -377,6 +386,8 @@ def build(td, wrong=False):
         doc = inner
     elif td["root"] == "svg-attrs":
         doc = f'<svg width="200" height="100" viewBox="0 0 200 100">{inner}</svg>'
+    elif td["root"] == "svg-class":
+        doc = f'<svg class="diagram big" id="top" data-k="1" preserveAspectRatio="xMidYMid">{inner}</svg>'
     else:
         doc = f"<svg>{inner}</svg>"
     nvars = len(g.vars)
